@@ -69,6 +69,12 @@ def pLine (ws : List String) : String := Id.run do
     if norm == .smart && a.normalize ≠ a.needle.all (fun c => Gen.normalizeLatin c = c) then
       issues := issues ++ [s!"ORACLE C14 smart normalization: normalize = {a.normalize} for needle {a.needle}"]
     if a.needle.isEmpty then issues := issues ++ ["ORACLE C14 atom with an empty needle was kept"]
+    -- only an escaped U+0020 is unescaped, everything else is kept literally: any other whitespace can reach a needle only
+    -- behind the backslash that kept the splitter from cutting there, and that backslash must still be in front of it
+    -- (texts with a Prepend character are left out: it can swallow the backslash into its cluster)
+    if !text.any (fun c => [0x600, 0x601, 0x602, 0x603, 0x604, 0x605, 0x6DD, 0x70F, 0x8E2, 0x110BD, 0x110CD].contains c) then
+      let bad := (a.needle.zip (0 :: a.needle)).any fun (c, prev) => isWs c && c ≠ 32 && prev ≠ 92
+      if bad then issues := issues ++ [s!"ORACLE C14 a whitespace character other than U+0020 in the needle {a.needle} lost its backslash (only an escaped space is unescaped, everything else is kept literally)"]
   -- literal round trip
   if mode = "lit" then
     let lit := parseCps (get "lit")
